@@ -126,6 +126,17 @@ def rule_rk_json(prog: Program, report: Report) -> None:
                         written[k] = False
         read = _read_keys(prog.func(reader).node, var)
         rfn = prog.func(reader)
+        # the reader may hand the data object to helpers of its module: keys they read count
+        # (one level; `_marks_from_json(schema, json_data)`)
+        for c in walk_own(rfn.node):
+            if isinstance(c, ast.Call) and isinstance(c.func, ast.Name):
+                hk = f"{rfn.module.rel}::{c.func.id}"
+                if prog.has_func(hk):
+                    h = prog.func(hk)
+                    for i, a in enumerate(c.args):
+                        if isinstance(a, ast.Name) and a.id == var and i < len(h.params()):
+                            for k_, how in _read_keys(h.node, h.params()[i]).items():
+                                read.setdefault(k_, set()).update(how)
         for k, unc in sorted(written.items()):
             if k == "stepType":
                 continue
